@@ -134,7 +134,15 @@ func c01Register(w *World, r Registrar) {
 		case lat == 1:
 			runtime.Gosched()
 		case lat >= 2:
-			time.Sleep(time.Duration(lat) * 100 * time.Microsecond)
+			// a handler that honours its context, as handlers should: nobody has a reason to end it (the peers stay connected)
+			select {
+			case <-time.After(time.Duration(lat) * 100 * time.Microsecond):
+			case <-ctx.Done():
+				return nil, fmt.Errorf("the context of call %s ended under its handler: %w", nonce, ctx.Err())
+			}
+			if ctx.Err() != nil {
+				return nil, fmt.Errorf("the context of call %s ended under its handler: %w", nonce, ctx.Err())
+			}
 		}
 		if fail, _ := req.Params.Arguments["fail"].(bool); fail {
 			return nil, fmt.Errorf("failed:%s", c01Answer(nonce, int(size)))
